@@ -58,7 +58,8 @@ def gen(rng, i, quick):
     allper = rng.chance(0.6)
     periodic = [True] * 3 if allper else [rng.chance(0.5) for _ in range(3)]
     gamma = rng.choice([1.0001, 1.4, 5. / 3., 2.])
-    blocks, kind = hydrorun.gen_state(rng, ncell, (anchor, sides), gamma=gamma)
+    # every sixth case: pressureless (T = 0 K) gas inside dense warm gas
+    blocks, kind = hydrorun.gen_state(rng, ncell, (anchor, sides), gamma=gamma, kind="cold" if i % 6 == 3 else None)
     cfg = dict(ncell=ncell, nsub=nsub, periodic=periodic, box=(anchor, sides), blocks=blocks, gamma=gamma,
                cfl=rng.choice([0.05, 0.1, 0.2, 0.3, 0.4]), total_time=rng.choice([1e-4, 1e-3, 1e-2]))
     return cfg, kind, rng.choice([1, 2, 4, 8]), rng.randint(5, 20 if not quick else 8)
@@ -206,7 +207,7 @@ def main():
     cov["evaluations"] = tot.get("steps", 0)
     cov["distinct_nontrivial"] = len(distinct)
     cov["rule"] = ("one evaluation = one hydro step of the real binary observed by the H-hydro-state hook; non-trivial = distinct generated configurations "
-                   "(initial state kind boxes/vacuum/shock/smooth, gamma, CFL, box shape, layout, boundaries, threads) that contributed at least one clamp-free step "
+                   "(initial state kind boxes/vacuum/shock/smooth/cold (pressureless gas in warm gas), gamma, CFL, box shape, layout, boundaries, threads) that contributed at least one clamp-free step "
                    "for which conservation was actually decided")
     cov["monitor_counters"] = tot
     cov["state_kinds"] = kinds
